@@ -140,8 +140,27 @@ func dict(t *rapid.T, depth int) *recipe.Node {
 	return d
 }
 
+// tiedDict builds a Dict whose pairs tie on key text and value text while their keys belong to
+// different paths competing for one name: the only thing that can order them is the path.
+func tiedDict(t *rapid.T, f *recipe.File) *recipe.Node {
+	group := rapid.SampledFrom([][]string{{"a/d", "b/d", "c/d", "e/d"}, {"math/rand", "crypto/rand", "z/rand"}, {"q/e", "r/e"}, {"k8s.io/api/core/v1", "k8s.io/api/apps/v1", "k8s.io/api/batch/v1"}}).Draw(t, "tiegroup")
+	sym := rapid.SampledFrom([]string{"X", "Y"}).Draw(t, "tiesym")
+	val := rapid.IntRange(0, 1).Draw(t, "tieval")
+	var pairs []recipe.Pair
+	for _, p := range group {
+		if rapid.IntRange(0, 3).Draw(t, "tieanon") > 0 {
+			f.Ops = append(f.Ops, recipe.FileOp{Op: "Anon", Args: []recipe.Text{recipe.Text(p)}})
+		}
+		pairs = append(pairs, recipe.Pair{K: recipe.Qual(p, sym), V: recipe.Lit(val)})
+	}
+	return recipe.Dict(pairs...)
+}
+
 func mapRich(t *rapid.T) *recipe.File {
 	f := gen.FileSettings(t)
+	if rapid.IntRange(0, 3).Draw(t, "tied") == 0 {
+		f.Body = append(f.Body, recipe.S().C("Var").C("Id", "_").C("Op", "=").C("Id", "T").C("Values", tiedDict(t, f)))
+	}
 	// a big ImportNames table of which several entries are used
 	if rapid.Bool().Draw(t, "names") {
 		m := map[string]string{}
@@ -155,6 +174,10 @@ func mapRich(t *rapid.T) *recipe.File {
 			}
 		}
 		f.Ops = append(f.Ops, recipe.FileOp{Op: "ImportNames", Map: m})
+	}
+	// anonymous imports of paths that are later referenced (their table entry is rewritten in place)
+	for i := rapid.IntRange(0, 4).Draw(t, "nanon"); i > 0; i-- {
+		f.Ops = append(f.Ops, recipe.FileOp{Op: "Anon", Args: []recipe.Text{recipe.Text(rapid.SampledFrom(collide).Draw(t, "anonpath"))}})
 	}
 	nd := rapid.IntRange(1, 4).Draw(t, "ndecls")
 	for i := 0; i < nd; i++ {
